@@ -120,7 +120,7 @@ func (s *verifStore) StoreChunk(c *Chunk) error {
 	id := c.ID()
 	s.putLog = append(s.putLog, id)
 	if _, ok := s.find(id); !ok {
-		s.entries = append(s.entries, verifEntry{id: id, data: b})
+		s.entries = append(s.entries, verifEntry{id: id, data: append([]byte(nil), b...)}) // a store persists the bytes as they are now
 	}
 	return nil
 }
